@@ -244,8 +244,119 @@ def analyse(chk, prop):
     chk.notes["explanation"] = "path-policy abstract interpretation of the canonization walks on symbolic tables (orbit coverage, compare-and-keep discipline, certificates for every comparison index)"
 
 
+class _Stop(Exception):
+    pass
+
+
+def capture_sequences(env, kind, which, n):
+    """run the public method and record the &[u8] sequences handed to the walk and to the decoder
+    (the walk itself is skipped); -> (walk sequences, decoder sequences)"""
+    K = env.kinds[kind]
+    b = K.method({"p": "p_canonization", "n": "n_canonization", "npn": "npn_canonization"}[which])
+    it = env.interp(max_steps=400000000)
+    it.memo_pure = True
+    got = []
+
+    def is_u8_slice(ty):
+        return ty["k"] == "ref" and ty["t"]["k"] == "slice" and ty["t"]["t"].get("w") == 8 and not ty["mut"]
+
+    def hook(interp, body, args, st, pc):
+        ins = (body.get("sig") or {}).get("inputs", [])
+        if not any(is_u8_slice(ty) for ty in ins):
+            return None
+        seqs = []
+        for ty, a in zip(ins, args):
+            if is_u8_slice(ty):
+                vals = [x.val for x in interp.slice_elems(st, a)]
+                if any(v is None for v in vals):
+                    raise Undecided("symbolic sequence")
+                seqs.append(vals)
+        has_table = any(ty["k"] == "ref" and ty["mut"] and ty["t"]["k"] == "slice" and ty["t"]["t"].get("w") == 64 for ty in ins)
+        got.append(("walk" if has_table else "decoder", seqs))
+        if has_table:
+            out = body["sig"]["output"]
+            if out["k"] == "uint":
+                return interp.ret(st, pc, wconst(out["w"], 0))
+            return None
+        raise _Stop()
+    it.call_hook = hook
+    st = State()
+    p = K.place(st, K.mk(st, n, sym_words(n, "a")))
+    try:
+        it.call_body(b, [p], st, K.env(n))
+    except _Stop:
+        pass
+    walk = [s for k, s in got if k == "walk"]
+    dec = [s for k, s in got if k == "decoder"]
+    return (walk[0] if walk else None), (dec[0] if dec else None), b
+
+
+def check_cycle(seq, n):
+    """closed covering cycle of flips (length 2^n) or adjacent swaps (length n!)"""
+    if len(seq) == 1 << n and n >= 1:
+        cur, seen = 0, set()
+        for f in seq:
+            if f >= n:
+                return REFUTED, "flip index %d out of range" % f
+            cur ^= 1 << f
+            if cur in seen:
+                return REFUTED, "polarity mask %s visited twice" % bin(cur)
+            seen.add(cur)
+        if cur != 0 or len(seen) != 1 << n:
+            return REFUTED, "flip sequence is not a closed cycle through all %d masks" % (1 << n)
+        return PROVED, "gray"
+    cur, seen = list(range(n)), set()
+    for s_ in seq:
+        if s_ + 1 >= n:
+            return REFUTED, "swap index %d out of range" % s_
+        cur[s_], cur[s_ + 1] = cur[s_ + 1], cur[s_]
+        tpl = tuple(cur)
+        if tpl in seen:
+            return REFUTED, "permutation visited twice"
+        seen.add(tpl)
+    if cur != list(range(n)) or len(seen) != math.factorial(n):
+        return REFUTED, "swap sequence of length %d is not a closed cycle through all %d permutations (it ends at %s after %d distinct ones)" % (len(seq), math.factorial(n), cur, len(seen))
+    return PROVED, "sjt"
+
+
+def generated(chk):
+    """C04.Q: the sequences generated at run time for n >= 7 (folded: pure functions of n) are closed
+    covering cycles and the same sequences reach walk and decoder"""
+    facts = F.load("dbg")
+    env = Env(facts)
+    ns = (7,) if chk.tier == "quick" else (7, 8)
+    for kind in ("dyn", "static"):
+        K = env.kinds[kind]
+        for which in ("p", "n", "npn"):
+            for n in ns:
+                key = "%s::%s_canonization n=%d generated sequences" % (K.adt, which, n)
+                try:
+                    walk, dec, b = capture_sequences(env, kind, which, n)
+                    if walk is None or dec is None:
+                        v, d = UNDECIDED, "walk/decoder calls not recognised"
+                    elif walk != dec:
+                        v, d = REFUTED, "the decoder replays different sequences than the walk used"
+                    else:
+                        v, d = PROVED, ""
+                        kinds = []
+                        for s_ in walk:
+                            v, d = check_cycle(s_, n)
+                            if v != PROVED:
+                                break
+                            kinds.append(d)
+                        want = {"p": ["sjt"], "n": ["gray"], "npn": ["sjt", "gray"]}[which]
+                        if v == PROVED and sorted(kinds) != sorted(want):
+                            v, d = REFUTED, "sequences %s, expected %s" % (kinds, want)
+                        elif v == PROVED:
+                            d = "lengths %s" % [len(s_) for s_ in walk]
+                except Undecided as e:
+                    v, d = UNDECIDED, e.cause
+                chk.add("C04.Q", key, v, d, where=where_of(K.method("%s_canonization" % which)))
+
+
 def run(chk):
     analyse(chk, "C04")
+    generated(chk)
     # C04.T: constant sequences are closed cycles (table predicates, E5)
     facts = F.load("dbg")
     tables(chk, facts)
